@@ -106,9 +106,9 @@ op("merge_T2_left", "df", lambda x: x.merge(_T2(x), on="a", how="left"), order="
 op("merge_T2_outer", "df", lambda x: x.merge(_T2(x), on="a", how="outer"), order="lose", labels="lose", tier=2, tags=("dup",))
 op("merge_T2_right", "df", lambda x: x.merge(_T2(x), on="a", how="right"), order="lose", labels="lose", tier=2, tags=("dup",))
 op("merge_self_agg", "df", lambda x: x.merge(x.groupby("a")["b"].sum().reset_index(), on="a"), order="lose", labels="lose", tier=2, tags=("dup",))
-op("gb_a_agg", "df", lambda x: x.groupby("a").agg({"b": "sum", "u": "max"}), order="sorted", labels="new")
-op("gb_a_b_sum", "df", lambda x: x.groupby("a")["b"].sum(), order="sorted", labels="new")
-op("gb_a_sum", "df", lambda x: x.groupby("a").sum(numeric_only=True), order="sorted", labels="new", tier=2)
+op("gb_a_agg", "df", lambda x: x.groupby("a").agg({"b": "sum", "u": "max"}), order="lose", labels="new")
+op("gb_a_b_sum", "df", lambda x: x.groupby("a")["b"].sum(), order="lose", labels="new")
+op("gb_a_sum", "df", lambda x: x.groupby("a").sum(numeric_only=True), order="lose", labels="new", tier=2)
 op("sum_b", "df", lambda x: x["b"].sum())
 op("sum", "any", lambda x: x.sum(numeric_only=True) if _isframe(x) else x.sum(), order="sorted", labels="new")
 op("count", "any", lambda x: x.count(), order="sorted", labels="new")
@@ -154,6 +154,7 @@ op("cumsum", "any", lambda x: _num(x).cumsum(), osens=True, tier=2)
 op("cummax", "any", lambda x: _num(x).cummax(), osens=True, tier=2)
 op("shift1", "any", lambda x: x.shift(1), osens=True, tier=2)
 op("diff1", "any", lambda x: _num(x).diff(1), osens=True, tier=2)
+op("shift_1_2", "df", lambda x: x["a"].shift(1) + x["a"].shift(2), osens=True, tier=2)
 op("ffill", "any", lambda x: x.ffill(), osens=True, tier=2)
 op("rolling2_sum", "any", lambda x: _num(x).rolling(2).sum(), osens=True, tier=2)
 op("mean", "any", lambda x: x.mean(numeric_only=True) if _isframe(x) else x.mean(), tier=2, order="sorted", labels="new")
@@ -171,19 +172,19 @@ op("unique", "s", lambda x: x.unique(), pd=lambda x: pd.Series(x.unique(), name=
 op("nlargest2_u", "df", lambda x: x.nlargest(2, "u"), order="sorted", tier=2, tags=("by_u",))
 op("nsmallest3_b", "df", lambda x: x.nsmallest(3, "b"), order="lose", osens=True, tier=2)
 op("s_nlargest2", "s", lambda x: x.nlargest(2), order="lose", osens=True, tier=2)
-op("gb_a_mean", "df", lambda x: x.groupby("a")["b"].mean(), order="sorted", labels="new", tier=2)
-op("gb_a_size", "df", lambda x: x.groupby("a").size(), order="sorted", labels="new", tier=2)
-op("gb_a_first", "df", lambda x: x.groupby("a")["u"].first(), order="sorted", labels="new", osens=True, tier=2)
-op("gb_a_var", "df", lambda x: x.groupby("a")["b"].var(), order="sorted", labels="new", tier=2)
+op("gb_a_mean", "df", lambda x: x.groupby("a")["b"].mean(), order="lose", labels="new", tier=2)
+op("gb_a_size", "df", lambda x: x.groupby("a").size(), order="lose", labels="new", tier=2)
+op("gb_a_first", "df", lambda x: x.groupby("a")["u"].first(), order="lose", labels="new", osens=True, tier=2)
+op("gb_a_var", "df", lambda x: x.groupby("a")["b"].var(), order="lose", labels="new", tier=2)
 op("gb_a_nunique", "df", lambda x: x.groupby("a")["d"].nunique(), order="lose", labels="new", tier=2)
-op("gb_ad_sum", "df", lambda x: x.groupby(["a", "d"])["b"].sum(), order="sorted", labels="new", tier=2)
+op("gb_ad_sum", "df", lambda x: x.groupby(["a", "d"])["b"].sum(), order="lose", labels="new", tier=2)
 op("gb_a_sum_so2", "df", lambda x: x.groupby("a")["b"].sum(split_out=2), pd=lambda x: x.groupby("a")["b"].sum(), order="lose", labels="new", tier=2)
 op("gb_a_nosort", "df", lambda x: x.groupby("a", sort=False)["b"].sum(), order="lose", labels="new", tier=2)
 op("gb_a_cumsum", "df", lambda x: x.groupby("a")["b"].cumsum(), osens=True, tier=2)
-op("gb_a_transform", "df", lambda x: x.groupby("a")["b"].transform("sum") if isinstance(x, pd.DataFrame) else x.groupby("a")["b"].transform("sum", meta=("b", "f8")), order="lose", tier=2)
-op("gb_a_apply", "df", lambda x: x.groupby("a")[["b", "u"]].apply(_gb_apply_fn) if isinstance(x, pd.DataFrame) else x.groupby("a")[["b", "u"]].apply(_gb_apply_fn, meta={"b": "f8", "u": "f8"}), order="lose", tier=2)
-op("gb_a_median", "df", lambda x: x.groupby("a")["b"].median(), order="sorted", labels="new", tier=2)
-op("gb_key_series", "df", lambda x: x.groupby(x["a"])["b"].sum(), order="sorted", labels="new", tier=2)
+op("gb_a_transform", "df", lambda x: x.groupby("a")["b"].transform("sum"), order="lose", tier=2)
+op("gb_a_apply", "df", lambda x: x.groupby("a")[["b", "u"]].apply(_gb_apply_fn), order="lose", tier=2)
+op("gb_a_median", "df", lambda x: x.groupby("a")["b"].median(), order="lose", labels="new", tier=2)
+op("gb_key_series", "df", lambda x: x.groupby(x["a"])["b"].sum(), order="lose", labels="new", tier=2)
 op("concat_self", "df", lambda x: _concat([x, x]), order="keep", tier=2, tags=("dup",))
 op("concat_T2", "df", lambda x: _concat([x, _T2(x)]), tier=2, tags=("dup",))
 op("concat_ax1", "df", lambda x: _concat([x[["a"]], x[["b"]]], axis=1), tier=2)
@@ -191,7 +192,7 @@ op("concat_filt", "df", lambda x: _concat([x[x["a"] > 2], x[x["a"] <= 2]]), tier
 op("join_agg", "df", lambda x: x.set_index("a")[["u"]].join(x.groupby("a")[["b"]].sum()), order="lose", labels="new", tier=2)
 op("combine_first", "df", lambda x: x[["b"]].combine_first(x[["a"]]), tier=2, lsens=True)
 op("map_partitions", "df", lambda x: x.map_partitions(_mp_fn), pd=lambda x: _mp_fn(x), tier=2)
-op("map_partitions_len", "any", lambda x: x.map_partitions(len), pd=None, tags=("psens", "daskonly"), tier=2)
+op("map_partitions_len", "any", lambda x: x.map_partitions(len), pd=None, tags=("psens", "daskonly"), tier=4)
 op("map_overlap", "df", lambda x: x[["a", "b"]].map_overlap(_mo_fn, 1, 0), pd=lambda x: _mo_fn(x[["a", "b"]]), osens=True, tier=2)
 op("loc_slice", "any", lambda x: x.loc[2:7], lsens=True, osens=True, tier=2)
 op("loc_bool", "df", lambda x: x.loc[x["a"] > 2], tier=2)
@@ -212,7 +213,7 @@ op("cov", "df", lambda x: x[["a", "b", "u"]].cov(), tier=3)
 op("corr", "df", lambda x: x[["a", "b", "u"]].corr(), tier=3)
 op("query", "df", lambda x: x.query("a > 2"), tier=3)
 op("eval", "df", lambda x: x.eval("z = a + b"), tier=3)
-op("pivot_table", "df", lambda x: _pivot(x), order="sorted", labels="new", tier=3)
+op("pivot_table", "df", lambda x: _pivot(x), order="lose", labels="new", tier=3)
 op("get_dummies", "df", lambda x: _dummies(x), tier=3)
 op("nlargest2_cols", "df", lambda x: x.nlargest(2, ["u", "a"]), order="sorted", tier=3, tags=("by_u",))
 op("squeeze", "df", lambda x: x[["a"]].squeeze(axis=1), tier=3)
@@ -334,6 +335,16 @@ def applicable(op_, kind):
     return False
 
 
+# ops that neither change the values of column u nor duplicate rows
+KEEPS_U = {
+    "proj_abu", "filt_a_gt2", "filt_b_le2", "filt_and", "filt_or_common", "filt_vs_mean", "filt_idx", "filt_none",
+    "assign_z", "assign_over_a", "assign_zz", "rename_ab", "rename_swap", "reset_index", "reset_index_drop",
+    "set_index_a", "set_index_d_np2", "sort_u", "sort_a", "sort_b_desc", "sort_a_u", "head3", "head7_all", "tail3",
+    "part1", "part_20", "repart2", "repart5", "shuffle_a", "shuffle_a_np2", "astype_f", "dropna_b", "dropna",
+    "drop_c", "isin_a", "isin_c", "loc_slice", "loc_bool", "clear_div", "enforce_div", "str_upper", "astype_cat",
+    "query", "eval", "map_partitions", "dropdup_a", "dropdup", "nlargest2_u", "nsmallest3_b", "concat_filt", "sample",
+}
+
 IDX_OK = {"count", "min", "max", "nunique", "unique", "head3", "part1", "repart2", "len", "size", "map_partitions_len"}
 
 
@@ -347,7 +358,7 @@ class Typing:
 
     def after(self, op_: Op):
         t = Typing(self.ordered, self.labelled, self.defined, self.approx or op_.approx, self.u_unique)
-        if "dup" in op_.tags:
+        if op_.name not in KEEPS_U:
             t.u_unique = False
         if op_.osens and not self.ordered:
             t.defined = False
